@@ -173,16 +173,20 @@ func (fs *Filespace) Writer(destPath string) (writer filesystem.Writer, err erro
 	if node, err = dir.getNode(destNodeName); err != nil {
 		verifhook.Yield("memfs.create.gap")
 		file = NewFile(destNodeName, filesystem.DefaultUnixFileMode, time.Now(), []byte{})
+		// hold the data lock before the node becomes visible: nobody may read the
+		// still empty file until the writer is closed
+		handler := NewFileHandler(file)
 		if err = dir.addNode(file); err != nil {
+			handler.Close()
 			return nil, err
 		}
 		verifhook.Yield("memfs.writer.created")
-	} else {
-		if file, ok = node.(*File); !ok {
-			return nil, goaterr.Errorf("Node %s must be a file", destPath)
-		}
-		file.time = time.Now()
+		return handler, nil
 	}
+	if file, ok = node.(*File); !ok {
+		return nil, goaterr.Errorf("Node %s must be a file", destPath)
+	}
+	file.time = time.Now()
 	handler := NewFileHandler(file)
 	// a writer replaces the previous content (like os.Create)
 	file.data = []byte{}
